@@ -19,11 +19,22 @@ theorem encSegments_ref (four : Bool) (segs : List (Nat × List Nat)) (h : ∀ s
     simp only [be8, encAsns, List.cons_append, List.nil_append, List.append_assoc]
     cases four <;> simp <;> (congr 1)
 
-/-- in-range values for the reference encoder: the standard attributes of C06 plus AS4_PATH / AS4_AGGREGATOR -/
+/-- the attribute type codes some decoder is registered for (anything else is kept as opaque octets) -/
+def knownCodes : List Nat := [1, 2, 3, 4, 5, 6, 7, 8, 9, 10, 17, 18, 32, 14, 15, 16, 22, 29, 40]
+
+/-- in-range values for the reference encoder: the standard attributes of C06 plus AS4_PATH / AS4_AGGREGATOR,
+    plus attributes of a type the agent does not know, carrying arbitrary octets -/
 def AttrOkR (asn4 : Bool) (code : Nat) (v : AttrVal) : Prop :=
   AttrOk asn4 code v ∨
   (code = 17 ∧ ∃ segs, v = .asPath segs ∧ ∀ s ∈ segs, SegOk true s) ∨
-  (code = 18 ∧ ∃ a ip, v = .aggregator a ip ∧ a < 4294967296 ∧ ip < 4294967296)
+  (code = 18 ∧ ∃ a ip, v = .aggregator a ip ∧ a < 4294967296 ∧ ip < 4294967296) ∨
+  (code ∉ knownCodes ∧ ∃ b, v = .raw b)
+
+theorem pav_unknown (a : Bool) (code : Nat) (v : Bytes) (h : code ∉ knownCodes) :
+    parseAttrValue a code v = .ok (.raw v) := by
+  simp only [knownCodes, List.mem_cons, List.not_mem_nil, or_false, not_or] at h
+  simp [parseAttrValue, C.tOrigin, C.tAsPath, C.tNextHop, C.tMed, C.tLocalPref, C.tAtomicAgg, C.tAggregator,
+    C.tCommunity, C.tOriginatorId, C.tClusterList, C.tAs4Path, C.tAs4Aggregator, C.tLargeCommunity, otherModelCodes, h]
 
 theorem pav_17 (a : Bool) (v : Bytes) : parseAttrValue a 17 v = (parseAsPath true v).map .asPath := by
   simp [parseAttrValue, C.tOrigin, C.tAsPath, C.tNextHop, C.tMed, C.tLocalPref, C.tAtomicAgg, C.tAggregator,
@@ -35,7 +46,7 @@ theorem pav_18 (a : Bool) (v : Bytes) : parseAttrValue a 18 v = parseAggregator 
 /-- the value decoder of every attribute type inverts the reference value encoding -/
 theorem refValue_parse (asn4 : Bool) (code : Nat) (v : AttrVal) (h : AttrOkR asn4 code v) :
     parseAttrValue asn4 code (refValue asn4 code v) = .ok v := by
-  rcases h with h | ⟨rfl, segs, rfl, hs⟩ | ⟨rfl, a, ip, rfl, ha, hip⟩
+  rcases h with h | ⟨rfl, segs, rfl, hs⟩ | ⟨rfl, a, ip, rfl, ha, hip⟩ | ⟨hc, b, rfl⟩
   · cases v with
     | origin n =>
       obtain ⟨rfl, hn⟩ := h
@@ -102,6 +113,7 @@ theorem refValue_parse (asn4 : Bool) (code : Nat) (v : AttrVal) (h : AttrOkR asn
     have h1 : (be32 a ++ be32 ip).take 4 = be32 a := by simp [be32]
     have h2 : (be32 a ++ be32 ip).drop 4 = be32 ip := by simp [be32]
     simp only [parseAggregator, ↓reduceIte, h1, h2, unpackI_be32 ha, unpackI_be32 hip]
+  · simp only [refValue, pav_unknown asn4 code b hc]
 
 end Yabgp
 
